@@ -6,8 +6,20 @@ import re, subprocess, sys, os, textwrap
 
 COQ = os.path.join(os.path.dirname(os.path.abspath(__file__)), "..", "coq")
 
-def check_type(imports, lemma):
-    src = imports + "\nSet Printing Width 110.\nSet Printing Depth 1000.\nCheck @%s.\n" % lemma
+def reparses(imports, lemma, ty):
+    src = imports + "\nGoal %s.\nProof. exact @%s. Qed.\n" % (ty, lemma)
+    p = subprocess.run(["coqtop", "-quiet", "-Q", COQ, "Corgi"], input=src, capture_output=True, text=True)
+    return "Error" not in p.stdout and "Error" not in p.stderr
+
+
+def check_type(imports, lemma, implicit=False):
+    if implicit is False:
+        ty = check_type(imports, lemma, implicit=None)
+        if reparses(imports, lemma, ty):
+            return ty
+        return check_type(imports, lemma, implicit=True)
+    src = imports + "\nSet Printing Width 110.\nSet Printing Depth 1000.\n%sCheck @%s.\n" % (
+        "Set Printing Implicit.\n" if implicit else "", lemma)
     p = subprocess.run(["coqtop", "-quiet", "-Q", COQ, "Corgi"], input=src, capture_output=True, text=True)
     out = p.stdout
     m = re.search(r"@?%s\s*\n?\s*:\s*(.*?)\n\s*\n" % re.escape(lemma), out + "\n\n", re.S)
